@@ -235,6 +235,7 @@ OPTIONAL_RULES: list[Rule] = [
     R(118, "list(map(lambda x: (x[0], x[1]), ps))", {"ps": "list_pair"}), R(118, "list(map(lambda x: x[1:], ps))", {"ps": "list_pair"}),
     # FURB181 / FURB182: every hashlib algorithm
     *[R(181, f"hashlib.{h}(bs).digest().hex()", {"bs": "bytes"}, setup="import hashlib\n", cls="L") for h in _HASHES],
+    *[R(181, f"hashlib.{h}(bs).digest({n}).hex()", {"bs": "bytes"}, setup="import hashlib\n", cls="L") for h in ("shake_128", "shake_256") for n in ("8", "1", "0")],
     # FURB167: every short regex flag
     *[R(167, f"re.compile('a', re.{f}).flags", {}, setup="import re\n", cls="L") for f in _RE_FLAGS],
     # FURB116: every base prefix builtin on negative and big ints
